@@ -180,7 +180,17 @@ fn hist_json(progs: &[Prog], ops: &[Op]) -> Value {
 pub fn run_history(progs: &[Prog], ops: &[Op], slot: &mut Slot, tag: &str, ev: Option<&mut Ev>) -> Result<Result<(), (String, String)>, String> {
     let n = progs.len();
     let reqs: Vec<String> = progs.iter().map(request_of).collect();
-    let refs: Vec<Value> = slot.run(&reqs)?.iter().map(worker_json).collect();
+    // reference: every program alone in its own fresh worker process (nothing was built before it);
+    // the pool as a whole is additionally built in order in one long-lived worker and must agree
+    let mut refs: Vec<Value> = vec![];
+    for (i, r) in reqs.iter().enumerate() {
+        let mut one = Slot::new(&format!("{}-ref{}", tag, i), true);
+        refs.push(worker_json(&one.run(std::slice::from_ref(r))?[0]));
+    }
+    let in_order: Vec<Value> = slot.run(&reqs)?.iter().map(worker_json).collect();
+    if let Some(i) = (0..n).find(|i| in_order[*i] != refs[*i]) {
+        return Ok(Err(("sequential-in-worker".to_string(), format!("program {} built after the programs before it in one process gives {} but alone in a fresh process {}", i, brief(&in_order[i]), brief(&refs[i])))));
+    }
     let mut interesting = false;
     let mut last: Option<usize> = None;
     let mut concurrent = false;
